@@ -8,7 +8,7 @@
 
   * `FullStatement` — every parse call of every history returns the fresh answer — is kept visible and is
     still REFUTED on the current code in four independent ways, each by a concrete witness history:
-    `d8_witness`, `d9_witness`, `d9_help_witness`, `d10_witness`, `d10_later_witness`, `d10_help_witness`,
+    `d8_regression`, `d9_witness`, `d9_help_witness`, `d10_witness`, `d10_later_witness`, `d10_help_witness`,
     `lateAdd_witness`  (⇒ `c08_full_false`).  The former D5 / D6 witness histories now satisfy the
     statement (`d5_regression`, `d6_regression`).
   * `c08_partial` — for EVERY history (no bound on its length, no hypothesis on it): every parse call that is
@@ -901,7 +901,8 @@ def d10HelpHist : List Op :=
 def lateAddHist : List Op :=
   mkP 0 cU clsA "a" ++ [.parse 0 false [], .add 0 { dest := "b".toList, cls := clsB }, .parse 0 false (argvOf ["--lr", "2"])]
 
-theorem d8_witness : allAgree env0 init d8Hist = false := by decide
+/-- D8 repaired by b1a5942: the second parse of a heterogeneous tuple agrees with a fresh parser (regression) -/
+theorem d8_regression : allAgree env0 init d8Hist = true := by decide
 theorem d9_witness : allAgree env0 init d9Hist = false := by decide
 theorem d9_help_witness : allAgree env0 init d9HelpHist = false := by decide
 theorem d10_witness : allAgree env0 init d10Hist = false := by decide
@@ -910,7 +911,6 @@ theorem d10_help_witness : allAgree env0 init d10HelpHist = false := by decide
 theorem lateAdd_witness : allAgree env0 init lateAddHist = false := by decide
 
 /-- the model reproduces the observed wrong answers, not just "some difference" -/
-example : (runHist env0 init d8Hist).getLast? = some (.raise "IndexError".toList) := by decide
 example : (runHist env0 init d9Hist).getLast? =
     some (.ok [{ dest := "s".toList, cls := "S".toList, fields := [],
                  sub := some ("mod".toList, "Y".toList, [("yv".toList, .sc (.int 2))]) }]
